@@ -123,6 +123,44 @@ impl vstd::std_specs::convert::FromSpecImpl<FileLock> for WireFileLock {
     open spec fn from_spec(v: FileLock) -> WireFileLock { wire_lock_of(v) }
 }
 
+// <[u8]>::iter().position(|c| *c == 0): the index of the first NUL byte, None if there is none (definition of Iterator::position)
+#[verifier::external_body]
+pub fn nul_position(buf: &Vec<u8>) -> (r: Option<usize>)
+    ensures r is Some <==> has_nul(buf@), r is Some ==> r->Some_0 as int == first_nul(buf@) && r->Some_0 < buf@.len()
+{ unimplemented!() }
+// the prefix of a byte string up to and including its first NUL: same name, same first NUL
+pub proof fn lemma_nul_prefix(s: Seq<u8>)
+    requires has_nul(s)
+    ensures 0 <= first_nul(s) < s.len(), s[first_nul(s)] == 0u8,
+            has_nul(s.subrange(0, first_nul(s) + 1)), first_nul(s.subrange(0, first_nul(s) + 1)) == first_nul(s),
+            cstr_of(s.subrange(0, first_nul(s) + 1)) =~= cstr_of(s),
+{
+    reveal(has_nul); reveal(cstr_of);
+    let i0 = choose|i: int| 0 <= i < s.len() && s[i] == 0u8;
+    // least such index exists (well-ordering by a bounded search)
+    let k = lemma_least_nul(s, i0);
+    assert(0 <= k < s.len() && s[k] == 0u8 && forall|j: int| 0 <= j < k ==> s[j] != 0u8);
+    let f = first_nul(s);
+    assert(0 <= f < s.len() && s[f] == 0u8 && forall|j: int| 0 <= j < f ==> s[j] != 0u8);
+    let p = s.subrange(0, f + 1);
+    assert(p[f] == 0u8);
+    assert(0 <= f < p.len() && p[f] == 0u8 && forall|j: int| 0 <= j < f ==> p[j] != 0u8);
+    let g = first_nul(p);
+    assert(0 <= g < p.len() && p[g] == 0u8 && forall|j: int| 0 <= j < g ==> p[j] != 0u8);
+    if g < f { assert(p[g] == s[g]); assert(false); }
+    if f < g { assert(p[f] == 0u8); assert(false); }
+    assert(p.subrange(0, g) =~= s.subrange(0, f));
+}
+pub proof fn lemma_least_nul(s: Seq<u8>, i: int) -> (k: int)
+    requires 0 <= i < s.len(), s[i] == 0u8
+    ensures 0 <= k <= i, s[k] == 0u8, forall|j: int| 0 <= j < k ==> s[j] != 0u8
+    decreases i
+{
+    if exists|j: int| 0 <= j < i && s[j] == 0u8 {
+        let j = choose|j: int| 0 <= j < i && s[j] == 0u8;
+        lemma_least_nul(s, j)
+    } else { i }
+}
 // ---- server::ServerUtil::get_message_body contains `unsafe { buf.set_len(len) }` (R9): contract only, listed as assumed.
 pub struct ServerUtil();
 impl ServerUtil {
